@@ -1,15 +1,13 @@
-// Probe: is the state after the real opn2_init() concrete for the solver?
 #include "player.hpp"
 extern "C" void harness_init(void)
 {
     OPN2_MIDIPlayer *dev = opn2_init(44100);
     VASSUME(dev != NULL);
     OPNMIDIplay *p = player_of(dev);
-    VASSERT(p->hooks.onDebugMessage == NULL, "debug hook null");
-    VASSERT(p->m_midiChannels.size() == 16, "16 channels");
-    VASSERT(p->m_chipChannels.size() == 12, "12 chip channels");
-    VASSERT(p->m_midiChannels[3].activenotes.empty(), "no notes");
-    VASSERT(p->m_synth->m_numChannels == 12, "numChannels");
-    VASSERT(g_tap.keyed[1][2] == 0, "not keyed");
+    OPNMIDIplay::OpnChannel::Location loc; loc.MidCh = 0; loc.note = 60;
+    VASSERT(p->m_chipChannels[0].find_user(loc).is_end(), "find on empty");
+    VASSERT(p->m_chipChannels[3].users.empty(), "empty");
+    for(unsigned a = 0; a < p->m_synth->m_numChannels; a++)
+        VASSERT(p->m_chipChannels[a].koff_time_until_neglible_us == 0, "koff 0");
     VWITNESS();
 }
